@@ -19,6 +19,13 @@ TRIPLES = [
     ["name === 'a*'", "name !== '?yz'", "name = 'a*'"],
     ["name eeq 'a*c'", "ext ene 't?t'", "name like 'a*'"],
     ["name =~ '^a.c$'", "name !=~ 'a.c'", "name notlike 'a_c'"],
+    # atoms that could interfere through per-query state: patterns differing only in letter case, the same text under
+    # different operator kinds, the same atom on different columns
+    ["name =~ '^[A-Z]'", "name =~ '^[a-z]'", "name !=~ '^[a-b]'"],
+    ["name =~ '\\d'", "name =~ '\\D$'", "ext rx '\\D'"],
+    ["name === 'ABC'", "name = 'ABC'", "name === 'abc'"],
+    ["name like 'A%'", "name =~ 'A%'", "name = 'a%'"],
+    ["ext = 'TXT'", "name = 'TXT'", "ext === 'txt'"],
 ]
 
 
